@@ -431,7 +431,7 @@ class Func:
 
 _LET = re.compile(r'^\s*let (?:mut )?(_\d+): (.*);$', re.M)
 _BLOCK = re.compile(r'^    (bb\d+)(?: \(cleanup\))?: \{\n(.*?)^    \}', re.M | re.S)
-_PROMOTED = re.compile(r'^const (.*::promoted\[\d+\]): ([^=]*?) = \{')
+_PROMOTED = re.compile(r'^(?:const|static) ((?:.*::promoted\[\d+\])|[\w:]+): ([^=]*?) = \{')
 _HEAD = re.compile(r'^fn (.*?)\((.*)\) -> (.*?)\s*$', re.S)
 
 
